@@ -26,7 +26,8 @@ EXTENDS Integers, Sequences, FiniteSets, TLC
 CONSTANTS Docs,      \* document names, e.g. {"d1","d2"}
           Txns,      \* explicit transaction ids, e.g. {1,2}
           MaxVal,    \* values written by updates are 1..MaxVal
-          MaxOps     \* bound on the number of API calls in a schedule (generation only)
+          MaxOps,    \* bound on the number of API calls in a schedule (generation only)
+          Branchable \* TRUE: branchable collection, every document-level commit is followed by a collection-level commit
 
 Absent  == -1
 Deleted == -2
@@ -45,6 +46,9 @@ VARIABLES
 
 vars == <<db, cver, lastw, tx, published, nops, chist, hist>>
 view == <<db, cver, lastw, tx, published, nops, chist>>
+
+\* notifications of one document-level commit
+Ev(d, k) == IF Branchable THEN <<[d |-> d, k |-> k], [d |-> "_collection", k |-> "collection"]>> ELSE <<[d |-> d, k |-> k]>>
 
 TxInit == [st |-> "idle", start |-> 0, snap |-> [d \in Docs |-> Absent],
            ws |-> [d \in Docs |-> NoWrite], evq |-> <<>>]
@@ -73,15 +77,15 @@ Begin(t) ==
 
 TCreate(t, d, r) ==
   /\ tx[t].st = "open" /\ r = CreateRes(View(t)[d])
-  /\ tx' = IF r = "ok" THEN [tx EXCEPT ![t].ws[d] = 0, ![t].evq = Append(@, [d |-> d, k |-> "create"])] ELSE tx
+  /\ tx' = IF r = "ok" THEN [tx EXCEPT ![t].ws[d] = 0, ![t].evq = @ \o Ev(d, "create")] ELSE tx
   /\ UNCHANGED <<db, cver, lastw, published, chist>> /\ Count /\ Log([op |-> "create", t |-> t, d |-> d])
 TUpdate(t, d, v, r) ==
   /\ tx[t].st = "open" /\ r = UpdateRes(View(t)[d])
-  /\ tx' = IF r = "ok" THEN [tx EXCEPT ![t].ws[d] = v, ![t].evq = Append(@, [d |-> d, k |-> "update"])] ELSE tx
+  /\ tx' = IF r = "ok" THEN [tx EXCEPT ![t].ws[d] = v, ![t].evq = @ \o Ev(d, "update")] ELSE tx
   /\ UNCHANGED <<db, cver, lastw, published, chist>> /\ Count /\ Log([op |-> "update", t |-> t, d |-> d, v |-> v])
 TDelete(t, d, r) ==
   /\ tx[t].st = "open" /\ r = DeleteRes(View(t)[d])
-  /\ tx' = IF r = "ok" THEN [tx EXCEPT ![t].ws[d] = Deleted, ![t].evq = Append(@, [d |-> d, k |-> "delete"])] ELSE tx
+  /\ tx' = IF r = "ok" THEN [tx EXCEPT ![t].ws[d] = Deleted, ![t].evq = @ \o Ev(d, "delete")] ELSE tx
   /\ UNCHANGED <<db, cver, lastw, published, chist>> /\ Count /\ Log([op |-> "delete", t |-> t, d |-> d])
 \* a query inside the transaction returns the live documents of  snapshot (+) own writes
 TQuery(t, rows) ==
@@ -130,7 +134,7 @@ IApply(d, new, k, r, fault) ==
   IF r = "ok" /\ ~fault
   THEN /\ db' = [db EXCEPT ![d] = new] /\ cver' = cver + 1 /\ lastw' = [lastw EXCEPT ![d] = cver + 1]
        /\ chist' = Append(chist, [start |-> cver, at |-> cver + 1, docs |-> {d}])
-       /\ published' = Append(published, [d |-> d, k |-> k])
+       /\ published' = published \o Ev(d, k)
   ELSE UNCHANGED <<db, cver, lastw, published, chist>>
 ICreate(d, r, fault) == /\ (fault /\ r = "fault") \/ (~fault /\ r = CreateRes(db[d]))
                         /\ IApply(d, 0, "create", r, fault)
